@@ -592,6 +592,9 @@ impl TulispValue {
             Ok(())
         } else if self.null() {
             if !val.null() {
+                // As when appending to a non-empty list: attach a copy, so that
+                // the two lists never share cells.
+                let val = val.deep_copy()?;
                 *self = TulispValue::List {
                     cons: val
                         .as_list_cons()
